@@ -1604,3 +1604,229 @@ Corollary compose_cmp_inst ww sg img ch blk K kk nn S :
   epi_all ww sg img ch = true ->
   forall a b, a < K -> b < K -> block_correct ww sg img blk S [a; b].
 Proof. intros -> -> -> -> ->. apply compose_cmp. Qed.
+
+(* ------------------------------------------------------------------------------------------- *)
+(* hex.if / bit.if n, if0, if1: the zero test of a whole vector                                 *)
+
+Lemma value_zero B l : B <> 0 -> (value B l =? 0) = forallb (fun d => d =? 0) l.
+Proof.
+  intros NZ. induction l as [|d l IH]; [reflexivity|]. cbn [value forallb]. rewrite <- IH.
+  destruct (N.eqb_spec d 0) as [->|ND]; cbn [andb].
+  - destruct (N.eqb_spec (value B l) 0) as [->|NV]; [now rewrite N.mul_0_r|].
+    apply N.eqb_neq. nia.
+  - apply N.eqb_neq. lia.
+Qed.
+
+Lemma if_rel cells {fall e} x ds : forall cv rows' cvE,
+  chain_rel cells fall (dspec_if x) (map (fun d => [d]) ds) cv rows' cvE e ->
+  rows' = map (fun d => [d]) ds /\ e = if forallb (fun d => d =? 0) ds then fall else x.
+Proof.
+  induction ds as [|d ds IH]; intros cv rows' cvE REL.
+  - cbn [map chain_rel] in REL. destruct rows'; [|contradiction]. destruct REL as [_ ->]. auto.
+  - cbn [map chain_rel] in REL. destruct rows' as [|r' rows']; [contradiction|].
+    destruct REL as [cv1 [exp [dn [E [_ REL]]]]]. cbn [dspec_if] in E. inversion E; subst r' exp dn. clear E.
+    cbn [map forallb]. destruct (d =? 0); cbn iota in REL; cbn [andb].
+    + destruct (IH cv1 rows' cvE REL) as [-> ->]. auto.
+    + destruct REL as [-> [_ ->]]. auto.
+Qed.
+
+Theorem compose_if ww sg img ch xz xnz :
+  ch_rev ch = false -> ch_fall ch = xz ->
+  chain_static ww img ch = true ->
+  length (cvars ch) = 1%nat ->
+  pro_check ww sg img ch [] = true ->
+  (forall i, (i < ch_n ch)%nat -> forallb (digit_check ww sg img ch (dspec_if xnz) i) (digit_dom ch i) = true) ->
+  epi_all ww sg img ch = true ->
+  forall a, a < 2 ^ (ch_bits ch * N.of_nat (ch_n ch)) ->
+  block_correct ww sg img (ch_block ch) (v_if (ch_bits ch * N.of_nat (ch_n ch)) xz xnz) [a].
+Proof.
+  intros HR HF ST L1 PRO DIG EPI a Ha.
+  pose proof (rows_of_fwd1 ch) as RW.
+  set (bits := ch_bits ch) in *. set (k := ch_n ch) in *.
+  assert (NZ : 2 ^ bits <> 0) by (apply N.pow_nonzero; lia).
+  apply (chain_block_correct ww sg img ch (dspec_if xnz) [] _ ST PRO DIG EPI [a] [a] (if a =? 0 then xz else xnz)); auto.
+  intros cvP rows' cvE e _ REL.
+  rewrite RW in REL by assumption. rewrite RW by assumption.
+  destruct (if_rel _ _ _ _ _ _ REL) as [-> ->]. split; [reflexivity|].
+  rewrite <- (value_zero (2 ^ bits)) by assumption. rewrite value_digits.
+  rewrite <- N.pow_mul_r. rewrite (N.mod_small a) by assumption. now rewrite HF.
+Qed.
+
+Corollary compose_if_inst ww sg img ch blk K kk nn xz xnz S :
+  blk = ch_block ch -> kk = ch_bits ch * N.of_nat (ch_n ch) -> K = 2 ^ kk -> nn = ch_n ch ->
+  S = v_if kk xz xnz ->
+  ch_rev ch = false -> ch_fall ch = xz ->
+  chain_static ww img ch = true ->
+  length (cvars ch) = 1%nat ->
+  pro_check ww sg img ch [] = true ->
+  (forall i, (i < nn)%nat -> forallb (digit_check ww sg img ch (dspec_if xnz) i) (digit_dom ch i) = true) ->
+  epi_all ww sg img ch = true ->
+  forall a, a < K -> block_correct ww sg img blk S [a].
+Proof. intros -> -> -> -> ->. apply compose_if. Qed.
+
+(* ------------------------------------------------------------------------------------------- *)
+(* bit.inc n: the carry is a cell; a step that finds it clear leaves the macro                   *)
+
+Lemma binc_rel cells {fall e} ds : (forall d, In d ds -> d < 2) -> forall c cv rows' cvE rest,
+  cv_idx cells cv = c :: rest ->
+  chain_rel cells fall dspec_binc (map (fun d => [d]) ds) cv rows' cvE e ->
+  rows' = map (fun d => [d]) (if c =? 0 then ds else inc_digits 2 ds).
+Proof.
+  induction ds as [|d ds IH]; intros H c cv rows' cvE rest CI REL.
+  - cbn [map chain_rel] in REL. destruct rows'; [|contradiction]. now destruct (c =? 0).
+  - cbn [map chain_rel] in REL. destruct rows' as [|r' rows']; [contradiction|].
+    destruct REL as [cv1 [exp [dn [E [P REL]]]]]. rewrite CI in E. cbn [dspec_binc] in E.
+    assert (Hd : d < 2) by (apply H; now left).
+    destruct (c =? 0).
+    + inversion E; subst r' exp dn. destruct REL as [-> _]. reflexivity.
+    + inversion E; subst r' exp dn. clear E. cbn iota in REL.
+      apply prefixb_one in P. destruct P as [rest1 CI1].
+      rewrite (IH (fun x Ix => H x (or_intror Ix)) _ _ _ _ _ CI1 REL).
+      cbn [inc_digits]. change (2 - 1) with 1.
+      assert (D : d = 0 \/ d = 1) by lia. destruct D as [-> | ->]; reflexivity.
+Qed.
+
+Theorem compose_binc ww sg img ch :
+  ch_bits ch = 1 ->
+  ch_rev ch = false -> ch_fall ch = 0 ->
+  chain_static ww img ch = true ->
+  length (cvars ch) = 1%nat ->
+  pro_check ww sg img ch [1] = true ->
+  (forall i, (i < ch_n ch)%nat -> forallb (digit_check ww sg img ch dspec_binc i) (digit_dom ch i) = true) ->
+  epi_all ww sg img ch = true ->
+  forall a, a < 2 ^ (ch_bits ch * N.of_nat (ch_n ch)) ->
+  block_correct ww sg img (ch_block ch) (v_inc (ch_bits ch * N.of_nat (ch_n ch))) [a].
+Proof.
+  intros HB HR HF ST L1 PRO DIG EPI a Ha.
+  pose proof (rows_of_fwd1 ch) as RW. rewrite HB in *.
+  set (k := ch_n ch) in *.
+  apply (chain_block_correct ww sg img ch dspec_binc [1] _ ST PRO DIG EPI [a] [(a + 1) mod 2 ^ (1 * N.of_nat k)] 0); auto.
+  intros cvP rows' cvE e PX REL. split.
+  2:{ rewrite <- HF. eapply chain_rel_exit; [|exact REL]. intros r ci r' exp x E. rewrite HF.
+      unfold dspec_binc in E. destruct r as [|d [|]]; try discriminate. destruct ci as [|c ci]; try discriminate.
+      destruct (c =? 0); inversion E; reflexivity. }
+  apply prefixb_one in PX. destruct PX as [rest CI].
+  rewrite RW in REL by assumption. rewrite RW by assumption. try rewrite HB in *.
+  set (da := map (fun j => dg 1 j a) (seq 0 k)) in *.
+  assert (La : length da = k) by (unfold da; now rewrite map_length, seq_length).
+  assert (Ba : forall s, In s da -> s < 2).
+  { intros s Is. unfold da in Is. apply in_map_iff in Is. destruct Is as [j [<- _]].
+    unfold dg. rewrite N.land_ones. now apply N.mod_upper_bound. }
+  rewrite (binc_rel _ da Ba 1 cvP rows' cvE rest CI REL). cbn [N.eqb Pos.eqb]. f_equal.
+  etransitivity; [symmetry; apply (digits_value 1); now apply inc_digits_lt|].
+  rewrite (inc_digits_length 2 da). rewrite La. change (2 ^ 1) with 2. rewrite value_inc by assumption. rewrite La.
+  unfold da. change 2 with (2 ^ 1) at 1. rewrite (value_digits 1). change (2 ^ 1) with 2.
+  rewrite N.mul_1_l in *. now rewrite (N.mod_small a) by assumption.
+Qed.
+
+Corollary compose_binc_inst ww sg img ch blk K kk nn S :
+  blk = ch_block ch -> kk = ch_bits ch * N.of_nat (ch_n ch) -> K = 2 ^ kk -> nn = ch_n ch ->
+  S = v_inc kk ->
+  ch_bits ch = 1 ->
+  ch_rev ch = false -> ch_fall ch = 0 ->
+  chain_static ww img ch = true ->
+  length (cvars ch) = 1%nat ->
+  pro_check ww sg img ch [1] = true ->
+  (forall i, (i < nn)%nat -> forallb (digit_check ww sg img ch dspec_binc i) (digit_dom ch i) = true) ->
+  epi_all ww sg img ch = true ->
+  forall a, a < K -> block_correct ww sg img blk S [a].
+Proof. intros -> -> -> -> ->. apply compose_binc. Qed.
+
+(* ------------------------------------------------------------------------------------------- *)
+(* digit-wise macros that change both operands (xor_zero, swap) or set one (zero)               *)
+
+Lemma map22_rel cells {fall e} f g ds : forall ss cv rows' cvE,
+  length ss = length ds -> chain_rel cells fall (dspec_map22 f g) (zip2 ds ss) cv rows' cvE e ->
+  rows' = zip2 (zipf f ds ss) (zipf g ds ss).
+Proof.
+  induction ds as [|d ds IH]; intros [|s ss] cv rows' cvE L REL; cbn [length] in L; try discriminate.
+  - cbn [zip2 chain_rel] in REL. destruct rows'; [reflexivity|contradiction].
+  - cbn [zip2 chain_rel] in REL. destruct rows' as [|r' rows']; [contradiction|].
+    destruct REL as [cv1 [exp [dn [E [_ REL]]]]]. cbn [dspec_map22] in E. inversion E; subst r' exp dn. cbn iota in REL.
+    cbn [zipf zip2]. f_equal. eapply IH; [congruence|exact REL].
+Qed.
+
+Theorem compose_map22 ww sg img ch f g F G :
+  (forall x y j, dg (ch_bits ch) j (F x y) = f (dg (ch_bits ch) j x) (dg (ch_bits ch) j y)) ->
+  (forall x y j, dg (ch_bits ch) j (G x y) = g (dg (ch_bits ch) j x) (dg (ch_bits ch) j y)) ->
+  ch_rev ch = false -> ch_fall ch = 0 ->
+  chain_static ww img ch = true ->
+  length (cvars ch) = 2%nat ->
+  pro_check ww sg img ch [] = true ->
+  (forall i, (i < ch_n ch)%nat -> forallb (digit_check ww sg img ch (dspec_map22 f g) i) (digit_dom ch i) = true) ->
+  epi_all ww sg img ch = true ->
+  forall a b, block_correct ww sg img (ch_block ch) (v_map22 F G) [a; b].
+Proof.
+  intros HF HG HR HFL ST L2 PRO DIG EPI a b.
+  pose proof (rows_of_fwd2 ch) as RW.
+  set (bits := ch_bits ch) in *. set (k := ch_n ch) in *.
+  apply (chain_block_correct ww sg img ch (dspec_map22 f g) [] _ ST PRO DIG EPI [a; b] [F a b; G a b] 0); auto.
+  intros cvP rows' cvE e _ REL. split.
+  2:{ rewrite <- HFL. eapply chain_rel_exit; [|exact REL]. intros r ci r' exp x E.
+      unfold dspec_map22 in E. destruct r as [|? [|? [|]]]; discriminate. }
+  rewrite RW in REL by assumption. rewrite RW by assumption.
+  rewrite (map22_rel _ _ _ _ _ _ _ _ (eq_trans (map_length _ _) (eq_sym (map_length _ _))) REL).
+  rewrite !zipf_map. f_equal; apply map_ext; intros j; symmetry; [apply HF|apply HG].
+Qed.
+
+Corollary compose_map22_inst ww sg img ch blk bits nn f g F G S :
+  (forall x y j, dg bits j (F x y) = f (dg bits j x) (dg bits j y)) ->
+  (forall x y j, dg bits j (G x y) = g (dg bits j x) (dg bits j y)) ->
+  blk = ch_block ch -> bits = ch_bits ch -> nn = ch_n ch -> S = v_map22 F G ->
+  ch_rev ch = false -> ch_fall ch = 0 ->
+  chain_static ww img ch = true ->
+  length (cvars ch) = 2%nat ->
+  pro_check ww sg img ch [] = true ->
+  (forall i, (i < nn)%nat -> forallb (digit_check ww sg img ch (dspec_map22 f g) i) (digit_dom ch i) = true) ->
+  epi_all ww sg img ch = true ->
+  forall a b, block_correct ww sg img blk S [a; b].
+Proof. intros HF HG -> -> -> ->. now apply compose_map22. Qed.
+
+Lemma dg_zero bits j : dg bits j 0 = 0.
+Proof. unfold dg. now rewrite N.shiftr_0_l, N.land_0_l. Qed.
+
+(* dst ^= src ; src = 0 *)
+Definition compose_xor_zero_inst ww sg img ch blk bits nn S :=
+  compose_map22_inst ww sg img ch blk bits nn N.lxor (fun _ _ => 0) N.lxor (fun _ _ => 0) S
+    (dg_lxor bits) (fun _ _ j => dg_zero bits j).
+(* a, b = b, a *)
+Definition compose_swap_inst ww sg img ch blk bits nn S :=
+  compose_map22_inst ww sg img ch blk bits nn (fun _ s => s) (fun d _ => d) (fun _ s => s) (fun d _ => d) S
+    (fun _ _ _ => eq_refl) (fun _ _ _ => eq_refl).
+
+Theorem compose_map1 ww sg img ch f F :
+  (forall x j, dg (ch_bits ch) j (F x) = f (dg (ch_bits ch) j x)) ->
+  ch_rev ch = false -> ch_fall ch = 0 ->
+  chain_static ww img ch = true ->
+  length (cvars ch) = 1%nat ->
+  pro_check ww sg img ch [] = true ->
+  (forall i, (i < ch_n ch)%nat -> forallb (digit_check ww sg img ch (dspec_map1 f) i) (digit_dom ch i) = true) ->
+  epi_all ww sg img ch = true ->
+  forall a, block_correct ww sg img (ch_block ch) (v_map1 F) [a].
+Proof.
+  intros HF HR HFL ST L1 PRO DIG EPI a.
+  pose proof (rows_of_fwd1 ch) as RW.
+  set (bits := ch_bits ch) in *. set (k := ch_n ch) in *.
+  apply (chain_block_correct ww sg img ch (dspec_map1 f) [] _ ST PRO DIG EPI [a] [F a] 0); auto.
+  intros cvP rows' cvE e _ REL. split.
+  2:{ rewrite <- HFL. eapply chain_rel_exit; [|exact REL]. intros r ci r' exp x E.
+      unfold dspec_map1 in E. destruct r as [|? [|]]; discriminate. }
+  rewrite RW in REL by assumption. rewrite RW by assumption.
+  rewrite (map1_rel _ _ _ _ _ _ REL). rewrite !map_map. apply map_ext. intros j. now rewrite HF.
+Qed.
+
+Corollary compose_map1_inst ww sg img ch blk bits nn f F S :
+  (forall x j, dg bits j (F x) = f (dg bits j x)) ->
+  blk = ch_block ch -> bits = ch_bits ch -> nn = ch_n ch -> S = v_map1 F ->
+  ch_rev ch = false -> ch_fall ch = 0 ->
+  chain_static ww img ch = true ->
+  length (cvars ch) = 1%nat ->
+  pro_check ww sg img ch [] = true ->
+  (forall i, (i < nn)%nat -> forallb (digit_check ww sg img ch (dspec_map1 f) i) (digit_dom ch i) = true) ->
+  epi_all ww sg img ch = true ->
+  forall a, block_correct ww sg img blk S [a].
+Proof. intros HF -> -> -> ->. now apply compose_map1. Qed.
+
+(* x[:n] = 0 *)
+Definition compose_zero_inst ww sg img ch blk bits nn S :=
+  compose_map1_inst ww sg img ch blk bits nn (fun _ => 0) (fun _ => 0) S (fun _ j => dg_zero bits j).
